@@ -172,7 +172,8 @@ def raw_window(rng, L, klass):
     raise ValueError(klass)
 
 
-START_CLASSES = ["even", "random", "equal", "extremes", "blocks", "single"]
+START_CLASSES = ["even", "random", "equal", "extremes", "blocks", "single", "ap-ends",
+                 "ap-one-off", "sorted-random"]
 
 
 def starts(rng, N, L, K, klass):
@@ -192,6 +193,22 @@ def starts(rng, N, L, K, klass):
     if klass == "blocks":
         base = rng.integers(0, hi + 1, size=max(1, K // 4)).astype(np.int64)
         return np.resize(base, K)
+    if klass in ("ap-ends", "ap-one-off"):
+        # looks like an arithmetic progression from its first two and last elements only
+        hop = max(1, hi // max(1, K - 1)) if hi > 0 else 0
+        hop = int(rng.integers(1, hop + 1)) if hop >= 1 else 0
+        s0 = int(rng.integers(0, hi - hop * (K - 1) + 1)) if hi - hop * (K - 1) >= 0 else 0
+        s = (s0 + hop * np.arange(K)).astype(np.int64)
+        s = np.clip(s, 0, hi)
+        if K >= 4:
+            if klass == "ap-ends":
+                s[2:-1] = rng.integers(0, hi + 1, size=K - 3)
+            else:
+                j = int(rng.integers(2, K - 1))
+                s[j] = int(rng.integers(0, hi + 1))
+        return s
+    if klass == "sorted-random":
+        return np.sort(rng.integers(0, hi + 1, size=K)).astype(np.int64)
     raise ValueError(klass)
 
 
